@@ -19,6 +19,7 @@ var stressBuiltin = []string{
 	"☺☺☺☺ \U0001F600\U0001F600 ☺️\U0001F44D\U0001F3FD", "\U0001F469‍\U0001F469‍\U0001F467 \U0001F1E9\U0001F1EA\U0001F1EB",
 	"Lorem ipsum dolor sit amet, consectetur (adipiscing) elit. Sed do $(1.50) 20% off!\r\nNext line third",
 	"각가각 あア一、。 （）", "a‍b‍\U0001F600 x­x ─x─ ¡Hola! ¿qué?",
+	"", "a", "\n", "\r\n",
 	"1,234.56 3.,5 1,,2 \"  (a)b c-1 a -1", "A. � a. B! 。 c? (d) e", "\xff\x80abc\xe2\x82 \xf0\x9f\x98", "กัก ါက ាក",
 }
 
@@ -32,10 +33,18 @@ func stressResult(s string) string {
 	}
 	fmt.Fprintf(&sb, "%d|%d|%s|%v|", u.StringWidth(s), u.GraphemeClusterCount(s), u.ReverseString(s), u.HasTrailingLineBreakInString(s))
 	g := u.NewGraphemes(s)
+	f0, t0 := g.Positions()
+	fmt.Fprintf(&sb, "new:%d,%d,%d,%q;", f0, t0, g.LineBreak(), g.Str())
 	for g.Next() {
 		f, t := g.Positions()
 		fmt.Fprintf(&sb, "%d,%d,%d,%v,%v,%d;", f, t, g.Width(), g.IsWordBoundary(), g.IsSentenceBoundary(), g.LineBreak())
 	}
+	// the iterator of one caller is nobody else's: after the pass and after Reset it is where this caller left it
+	f1, t1 := g.Positions()
+	fmt.Fprintf(&sb, "end:%d,%d,%q;", f1, t1, g.Str())
+	g.Reset()
+	f2, t2 := g.Positions()
+	fmt.Fprintf(&sb, "reset:%d,%d,%d,%q,%v;", f2, t2, g.LineBreak(), g.Str(), g.Next())
 	return sb.String()
 }
 
